@@ -5,6 +5,19 @@ props = [json.loads(l) for l in open('/verif/properties.jsonl')]
 ids = [p['id'] for p in props]
 
 CLAIMS = {
+ "C01": dict(cat="other", ref="DESIGN.md section 4, C01",
+   text="Address term of every unsafe dereference in optics (base + L.Offset + L.RootOffs typed *A, four sibling methods agree), Put/Get effects, census of every unsafe.Pointer conversion in all packages, who-may-write census of hseq.Type.RootOffs/StructField with the offset-accumulation term of the unfolding recursion, positional pairing of ForProductN/ForSpectrumN/NewN/FMapN on type arguments, the type-identity guard. GetPut/PutGet/PutPut and 'neighbours untouched' for every layout follow on paper (reflect offsets along value embedding = compiler offsets; typed store writes sizeof(A)).",
+   note="assumes reflect reports true offsets and hseq.Type values are produced by hseq (public struct: clients are an assumption); thorough repeats under GOARCH=386/arm64",
+   tech="static analysis: SSA address-term normalisation, unsafe/field-writer censuses over all packages, type-argument consistency on go/types"),
+ "C02": dict(cat="other", ref="DESIGN.md section 4, C02",
+   text="Construction census of the lens type, guard dominance and strength (type identity; container must be a struct) on every returning path of NewLens/NewReflector, loud lookups, dynamic *S assertion in Putt/Gett, pointer-strip taint into the offset recursion, interval of len(attr) at every attr[0:N]. Known findings: D1 (pointer-embedded fields accepted) and D3 (16 reslice sites); D2 and D3b were repaired by fix: commits.",
+   note="panic messages and reflect's behaviour are not decided",
+   tech="static analysis: who-may-construct census, dominance of guard edges on cut-point paths, interval analysis, taint of reflect .Elem() results"),
+ "C03": dict(cat="other", ref="DESIGN.md section 4, C03",
+   text="Canonical field loop, exactly one append per iteration with the descent after it, consecutive IDs, descent condition, PureType, FieldKey, first-match lookups with exact matching, names order, positional FMap/NewN/FMapN, true offsets (shared with C01). The listing as a whole follows on paper by induction; reflect's field order is trusted.",
+   note="assumes no struct embeds a pointer to itself (no cycle guard in the code; outside what the property can mean)",
+   tech="static analysis: counted-loop recognition, loop-carried value provenance, path constraints on SSA terms"),
+
  "C05": dict(cat="other", ref="DESIGN.md section 4, C05",
    text="Per-iteration event constraints of every sequential stage, decided on all cut-point paths of the single stage goroutine (Map/FMap/Filter/TakeWhile/Take/Partition/Fold/ForEach/Void/Seq/ToSeq), Take's budget by interval analysis, Fold's accumulator provenance, one goroutine per stage, outputs closed on every exit. The list-image claim for every capacity and interleaving follows on paper from single goroutine + FIFO + exactly-once-per-iteration; schedules are not enumerated.",
    note="assumes user functions terminate and do not touch the channels; Take's n >= 0; trusted: go/ssa, path engine, Go channel FIFO. Not decided: nothing is observed at run time.",
